@@ -67,6 +67,13 @@ impl VM {
                 continue;
             }
 
+            #[cfg(vbxq_aelys_lang_verif)]
+            if !crate::verif::budget_tick() {
+                return Err(self.runtime_error(RuntimeErrorKind::InvalidBytecode(
+                    "verif instruction budget exhausted".to_string(),
+                )));
+            }
+
             // Fetch instruction
             let instr = unsafe { *bytecode_ptr.add(ip) };
             ip += 1;
